@@ -34,6 +34,23 @@ def plan(tier):
                 outs = ['ok'] * 3
                 outs[k] = bad
                 out.append((C.cfg(3, edges, outs, 2), 1))
+    # the outcome depends on the graph given to THIS run: the same backend object and task objects scheduled a second time with
+    # another graph and a fresh environment (edges added, removed, hard <-> soft)
+    pairs2 = [([], C.CHAIN2), (C.CHAIN2, []), (C.CHAIN2S, C.CHAIN2), (C.CHAIN2, C.CHAIN2S)]
+    for one, two in pairs2:
+        for outs in (('fail', 'ok'), ('ok', 'ok'), ('raise', 'fail')):
+            for wrk in (1, 2):
+                out.append((C.cfg(2, one, outs, wrk, second=two), (1 if wrk == 1 else 0) if tier == 'quick' else (2 if wrk == 1 else 1)))
+    pairs3 = [([], C.JOIN3HS), (C.CHAIN3, C.FORK3HS), (C.JOIN3SS, C.TRI3), (C.TRI3, [])]
+    for one, two in pairs3:
+        for outs in (('fail', 'ok', 'ok'), ('ok', 'fail', 'ok')) + ((('ok', 'ok', 'ok'), ('raise', 'raise', 'ok')) if tier == 'thorough' else ()):
+            out.append((C.cfg(3, one, outs, 2, second=two), 1 if tier == 'thorough' else 0))
+    # a DepGraph used as a node of the hard graph, added before or after the plain tasks: the flattened graph decides
+    for edges in (C.JOIN3, C.CHAIN3, C.FORK3HS, C.TRI3):
+        for members in ((0,), (1,), (2,), (0, 1), (1, 2), (0, 2)):
+            for first in (True, False):
+                for outs in (('fail', 'ok', 'ok'), ('ok', 'fail', 'ok')):
+                    out.append((C.cfg(3, edges, outs, 2, nest=(members, first)), 0 if tier == 'quick' else 1))
     if tier == 'thorough':
         out.append((C.cfg(3, C.JOIN3HS, ['fail', 'raise', 'ok'], 2), 2))
         out.append((C.cfg(3, C.CHAIN3HS, ['raise', 'ok', 'ok'], 2), 2))
